@@ -171,6 +171,8 @@ def flags_for(unit, confirm=False):
     fl = list(unit.get("flags", DEFAULT_FLAGS)) + list(unit.get("extra_flags", []))
     if unit.get("mode", "dfcc") == "plain":
         fl.append("--drop-unused-functions")
+        if not unit.get("zero_init_statics"):
+            fl.append("--nondet-static")   # globals are inputs, not zero (a zero-initialised ghost would make checks vacuous)
     uw = unit.get("unwind")
     if confirm:
         uw = unit["confirm"].get("unwind", uw)
